@@ -169,8 +169,8 @@ def stepL2R64 (st : St) (cmd : List String) (got : String) : Option (St × Verdi
           let exact : Verdict :=
             if wfOps then
               let r := renderRep64 (f2 rx ry)
-              if r != rzS then some ("L2 bucket model = Go representation; model: " ++ r.take 400)
-              else if !rz.wf then some ("well-formed result of static " ++ op ++ " on well-formed operands")
+              if !rz.wf then some ("well-formed result of static " ++ op ++ " on well-formed operands")
+              else if r != rzS then some ("L2 bucket model = Go representation; model: " ++ r.take 400)
               else none
             else none
           some (st', firstFail [
